@@ -141,15 +141,21 @@ pub fn san_components(text: &str) -> Option<SanText> {
     Some(SanText::Move { kind, src_file, src_rank, dest, promo })
 }
 
-fn matches(m: &Model, mv: MMove, t: &SanText) -> bool {
+/// Does the move match every component written? `lenient` additionally lets a castling move answer to
+/// `K<own rook square>` (the library's king-takes-rook spelling) or `K<square the king lands on>`:
+/// the statement does not forbid those readings, but they never compete with a proper match.
+fn matches(m: &Model, mv: MMove, t: &SanText, lenient: bool) -> bool {
     match t {
         SanText::Castle(short) => m.is_castle(mv) && (file_of(mv.to) > file_of(mv.from)) == *short,
         SanText::Move { kind, src_file, src_rank, dest, promo } => {
-            // `K<own rook square>` is the library's own king-takes-rook spelling of castling;
-            // the statement does not forbid reading it that way (DESIGN.md §11)
-            (!m.is_castle(mv) || *kind == KING)
-                && m.sq[mv.from as usize].map(|x| x.0) == Some(*kind)
-                && mv.to == *dest
+            let dest_ok = if m.is_castle(mv) {
+                let landing = (mv.from & 0x38) | if file_of(mv.to) > file_of(mv.from) { 6 } else { 2 };
+                lenient && *kind == KING && (mv.to == *dest || landing == *dest)
+            } else {
+                mv.to == *dest
+            };
+            m.sq[mv.from as usize].map(|x| x.0) == Some(*kind)
+                && dest_ok
                 && mv.promo == *promo
                 && src_file.map_or(true, |f| file_of(mv.from) as u8 == f)
                 && src_rank.map_or(true, |r| rank_of(mv.from) as u8 == r)
@@ -170,12 +176,21 @@ fn check_read(w: &World, text: &str, cx: &mut Ctx) -> R {
                 return cx.fail("C20/san-reader/illegal-move".into(), format!("{:?} read as illegal {} at {}", text, x, m.to_fen(true)));
             }
             if let Some(t) = san_components(text) {
-                if !matches(m, xm, &t) {
+                if !matches(m, xm, &t, true) {
                     return cx.fail("C20/san-reader/component-mismatch".into(), format!("{:?} read as {} at {}", text, x, m.to_fen(true)));
                 }
-                let n = w.legal.iter().filter(|o| matches(m, **o, &t)).count();
-                if n != 1 {
-                    return cx.fail("C20/san-reader/ambiguous-text-accepted".into(), format!("{:?} matches {} legal moves, read as {} at {}", text, n, x, m.to_fen(true)));
+                let proper = w.legal.iter().filter(|o| matches(m, **o, &t, false)).count();
+                if matches(m, xm, &t, false) {
+                    if proper != 1 {
+                        return cx.fail("C20/san-reader/ambiguous-text-accepted".into(), format!("{:?} matches {} legal moves, read as {} at {}", text, proper, x, m.to_fen(true)));
+                    }
+                } else {
+                    // a tolerated reading (castling for a K-text): only when nothing matches properly and
+                    // exactly one castling move answers to it
+                    let tolerated = w.legal.iter().filter(|o| matches(m, **o, &t, true)).count();
+                    if proper != 0 || tolerated != 1 {
+                        return cx.fail("C20/san-reader/ambiguous-text-accepted".into(), format!("{:?} read as castling {} although {} legal moves match it properly ({} in all) at {}", text, x, proper, tolerated, m.to_fen(true)));
+                    }
                 }
             }
             Ok(())
